@@ -35,7 +35,8 @@ ASSUMPTIONS = [
 TOP = scen.TOP
 CANON_PRIORS = ['absent', 'flat', 'flat_otherhashes', 'flat_rich', 'nested_None_None', 'nested_gz_xz',
                 'nested_bz2_None', 'nested_ancestor', 'dup_sub', 'dup_disjoint', 'unreg_valid_only',
-                'unreg_valid_gz', 'ignore_dir', 'tags_rich', 'prunable_pairs']
+                'unreg_valid_gz', 'ignore_dir', 'tags_rich', 'prunable_pairs',
+                'escaped_neighbours_unlisted', 'escaped_neighbours_listed', 'hostile_names_unlisted']
 IDEM_SKIP_FORCE = True
 
 
